@@ -1,30 +1,42 @@
 /-
-Witnesses: clauses of C01 / C02 / C03 that are false of the current code on the footnote grammar
-(each reproduced on the real layout: corpus/C01/footnote_*.json, replays in py/harness/pm_foot_corr.py).
+Footnote grammar: regression examples for the three defects repaired in /repo (the former witnesses, now stating
+the correct behaviour on the same inputs), and the witness of the clause that is still false of the code
+(each reproduced on the real layout: corpus/C01/footnote_*.json, corpus/C03/footnote_*.json, replays in
+py/harness/pm_foot_corr.py).
+
+  fixed 67bf2ca  footnote-policy-block-crash        was `policy_block_crashes : paginateFoot wBlock 20 = none`
+  fixed 8db5909  footnote-named-page-lost           was `named_page_loses_footnote` (footnote 6 taken, never rendered)
+  fixed 8db5909  footnote-named-page-area-overlap   was `page_bottom_drifts` (page_bottom 24 → 36, line over the area)
+  finding        footnote-area-negative-margin-overflow   `area_negative_margin_overflows` (C03)
 -/
 import WpModel.Props.C01Foot
+import WpModel.Props.C03Foot
 import WpModel.Props.C03FootGeo
 
 namespace Wp.C01Foot
 open Wp Wp.PM Wp.PMF
 
+/-! ### `footnote-policy: block` on the first content of a page (repair 67bf2ca) -/
+
 /-- A 6-line paragraph on a 60px page; line 4 calls a 30px footnote with `footnote-policy: block`. The paragraph is
-the first content of the page, lines 0–3 are placed, the footnote does not fit under line 4: `_linebox_layout` sets
-`abort = True`, the paragraph returns `None` on an empty page, so does every ancestor, and `make_page` fails its
-`assert root_box` (AssertionError, no document). -/
+the first content of the page, lines 0–3 are placed, the footnote does not fit under line 4. Before the repair
+`_linebox_layout` aborted the paragraph on an empty page and `make_page` failed its `assert root_box`. -/
 def wBlock : FDoc := exDocOf 60 [.para 1 6 10 exSt [⟨4, 1, 3, 10, .block⟩]]
 
-/-- **W (C02/C03)**: `footnote-policy: block` makes the first page impossible — pagination fails. -/
-theorem policy_block_crashes : paginateFoot wBlock 20 = none := by decide +kernel
-
-/-- … already on page 1: the root box is `None`. -/
-theorem policy_block_root_none :
-    (remakePageF wBlock 0 none { brk := none, page := some "" } true (boxFns wBlock.root) []).isNone = true := by
+/-- **Regression (C02/C03, was W `policy_block_crashes`)**: the page break is taken before line 4 (as
+`footnote-policy: line` does); the footnote goes with its line to page 2 and is rendered there. -/
+theorem policy_block_first_content :
+    (paginateFoot wBlock 20).map (List.map pageSummary) =
+      some [⟨false, [(1, 0), (1, 1), (1, 2), (1, 3)], [], [], []⟩, ⟨false, [(1, 4), (1, 5)], [1], [], [1]⟩] := by
   decide +kernel
 
-/-- Everything but `noBlock` holds of `wBlock`. -/
-example : NoFixedHeight wBlock.root.erase ∧ WellFormed wBlock.root.erase ∧ CallsOk wBlock.root ∧
-    UniqueParaIds wBlock.root ∧ (boxFns wBlock.root).Nodup := by
+/-- … and page 1 has a root box (was W `policy_block_root_none`). -/
+theorem policy_block_root_some :
+    (remakePageF wBlock 0 none { brk := none, page := some "" } true (boxFns wBlock.root) []).isSome = true :=
+  C03Foot.remakePageF_total wBlock 0 none _ true _ []
+
+/-- `wBlock` satisfies the hypotheses of the footnote theorems (`FootWF` no longer excludes the policy). -/
+example : FootWF wBlock := by
   refine ⟨?_, ?_, ?_, ?_, ?_⟩
   · simp [wBlock, exDocOf, FootBox.erase, eraseList, NoFixedHeight, NoFixedHeightList, exSt]
   · simp [wBlock, exDocOf, FootBox.erase, eraseList, WellFormed, WellFormedList, exSt]
@@ -32,43 +44,52 @@ example : NoFixedHeight wBlock.root.erase ∧ WellFormed wBlock.root.erase ∧ C
   · simp [wBlock, exDocOf, UniqueParaIds, paraIds, paraIdsList]
   · decide +kernel
 
+/-- The policy still pushes a paragraph that is *not* the first content of its page: two lines, then a 4-line
+paragraph whose line 2 calls a 40px `footnote-policy: block` footnote on an 80px page: lines 0–1 of the paragraph
+fit, the footnote does not fit under line 2, the whole paragraph is cancelled (its footnotes un-laid-out) and
+starts page 2, where the footnote is rendered. -/
+def wBlockPush : FDoc := exDocOf 80 [.para 2 2 10 exSt [], .para 1 4 10 exSt [⟨2, 1, 4, 10, .block⟩]]
+
+theorem policy_block_pushes_paragraph :
+    (paginateFoot wBlockPush 20).map (List.map pageSummary) =
+      some [⟨false, [(2, 0), (2, 1)], [], [], []⟩,
+            ⟨false, [(1, 0), (1, 1), (1, 2), (1, 3)], [1], [], [1]⟩] := by
+  decide +kernel
+
+/-! ### footnotes of two page names in one footnote area (repair 8db5909) -/
+
 /-- Two paragraphs on 40.5px pages (lines of 12.5px): the last line of the first calls footnotes 3 and 4 (8px each),
-4 is postponed; the second paragraph has `page: pa` and calls footnote 6 on its last line. On page 3 (named `pa`) the
-footnote area holds 4 (page name '') and 6 (page name `pa`): `block_container_layout` of the area sees a page-name
-change between its two children (`block_level_page_name`) and stops before 6; the area is laid out with 4 alone and
-the rest is dropped (`[0]` of the result is used, `resume_at` ignored). Footnote 6 is taken (`current_page_footnotes`)
-but never rendered. -/
+4 is postponed; the second paragraph has `page: pa` and calls footnote 6 on its last line. Page 3 (named `pa`)
+takes footnote 4 (page name '') and then 6 (page name `pa`). Before the repair the footnote area was broken at the
+page-name change between its two children: 6 was taken (`current_page_footnotes`) but never rendered. -/
 def wNamed : FDoc := exDocOf (81 / 2)
   [.para 3 5 (25 / 2) exSt [⟨4, 3, 1, 8, .auto⟩, ⟨4, 4, 1, 8, .auto⟩],
    .para 4 2 (25 / 2) { exSt with page := "pa" } [⟨1, 6, 1, 8, .auto⟩]]
 
-/-- **W (C01)**: with two page names among the footnotes a footnote body is lost: footnote 6 is in the page's
-footnote list but not in the rendered area. -/
-theorem named_page_loses_footnote :
+/-- **Regression (C01, was W `named_page_loses_footnote`)**: every footnote is rendered exactly once — the whole
+area (4 and 6) is now laid out on page 3, overflows the page, 6 is postponed and a last page is made for it. -/
+theorem named_page_keeps_footnote :
     (paginateFoot wNamed 20).map (List.map pageSummary) =
       some [⟨false, [(3, 0), (3, 1), (3, 2)], [], [], []⟩, ⟨false, [(3, 3), (3, 4)], [3], [4], [3]⟩,
-            ⟨false, [(4, 0), (4, 1)], [4, 6], [], [4]⟩] ∧
+            ⟨false, [(4, 0), (4, 1)], [4], [6], [4]⟩, ⟨true, [], [6], [], [6]⟩] ∧
     (boxFns wNamed.root).map (fun f => f.fid) = [3, 4, 6] := by
   constructor <;> decide +kernel
 
-/-- `wNamed` satisfies every hypothesis of `footnotes_shown` but `OnePageName` (so `footnotes_conserve` and
-`footnotes_chain` hold of it: the footnote *is* taken by page 3, it is the rendering of the area that drops it). -/
-example : FootWF wNamed ∧ ¬ OnePageName wNamed := by
-  refine ⟨⟨?_, ?_, ?_, ?_, ?_, ?_⟩, ?_⟩
+/-- `wNamed` has two page names among its footnotes and satisfies `FootWF`: `footnotes_shown` applies to it. -/
+example : FootWF wNamed ∧ (boxFns wNamed.root).map (fun f => f.page) = ["", "", "pa"] := by
+  refine ⟨⟨?_, ?_, ?_, ?_, ?_⟩, ?_⟩
   · simp [wNamed, exDocOf, FootBox.erase, eraseList, NoFixedHeight, NoFixedHeightList, exSt]
   · simp [wNamed, exDocOf, FootBox.erase, eraseList, WellFormed, WellFormedList, exSt]
-  · simp [wNamed, exDocOf, NoBlockPolicy, NoBlockPolicyList]
   · simp [wNamed, exDocOf, CallsOk, CallsOkList]
   · simp [wNamed, exDocOf, UniqueParaIds, paraIds, paraIdsList]
   · decide +kernel
-  · unfold OnePageName; decide +kernel
+  · decide +kernel
 
 /-- A footnote area with a bottom margin and border (2px each) and `max-height: 25px`; footnote 2 (50px, page name
-'') is postponed to page 2, named `pb`, where the three footnotes 11–13 of the `page: pb` paragraph are laid out and
-postponed one after the other. Each time, the area holds footnotes of two page names, is laid out *fragmented*
-(its bottom margin/border removed) and `_update_footnote_area` subtracts the fragmented margin height but later adds
-back the full one: `context.page_bottom` rises by 4px per update, from 24 to 36, and line 1 of the paragraph
-(26 … 36) is accepted although the footnote area starts at 24. -/
+'') is postponed to page 2, named `pb`, where the three footnotes 11–13 of the `page: pb` paragraph are laid out
+and postponed one after the other. Before the repair the area — holding footnotes of two page names — was laid out
+fragmented (bottom margin/border removed), `_update_footnote_area` subtracted the fragmented margin height but
+added back the full one, `page_bottom` rose from 24 to 36 and line 1 (26 … 36) was accepted over the area (top 24). -/
 def wDrift : FDoc :=
   { pageH := 53, rootLtr := true, area := { mt := 0, mb := 2, pt := 0, pb := 0, bt := 0, bb := 2, maxH := some 25 },
     root := .block 100 { exSt with isRoot := true } [.block 101 exSt
@@ -76,12 +97,51 @@ def wDrift : FDoc :=
        .para 3 2 10 { exSt with page := "pb", pt := 16 } [⟨0, 11, 1, 10, .auto⟩, ⟨0, 12, 1, 10, .auto⟩,
          ⟨0, 13, 1, 10, .auto⟩]]] }
 
-/-- **W (C03)**: body text overlaps the footnote area (the hypothesis `AreaHyp` of `C03FootGeo.paginate_line_fits`
-fails: the area has a bottom margin and border): on page 2 the second line ends at 36, the area starts at 24. -/
-theorem page_bottom_drifts :
+/-- **Regression (C03, was W `page_bottom_drifts`)**: per page (bottoms of the lines, top of the footnote area,
+footnotes rendered): on page 2 only the first line (ending at 26, exempt as first content) is placed above the
+area that starts at 24 + and the second line goes to page 3; no line below an area top otherwise. -/
+theorem page_bottom_no_drift :
     (paginateFoot wDrift 20).map (fun ps => ps.map (fun p =>
       ((placedLines p.page.root true (C03FootGeo.pageSourceF wDrift p).erase).map (fun l => l.y + l.lineH),
-       p.area.map (fun a => a.y)))) =
-    some [([10], none), ([26, 36], some 24), ([], some 29), ([], some 39)] := by decide +kernel
+       p.area.map (fun a => a.y), shownFids p))) =
+    some [([10], none, []), ([26], some 24, [2]), ([10], some 29, [11, 12]), ([], some 39, [13])] := by
+  decide +kernel
+
+/-- `wDrift`'s area has bottom decorations and satisfies the (weakened) hypothesis of
+`C03FootGeo.paginate_line_fits`. -/
+example : AreaHyp wDrift.area := ⟨by decide +kernel⟩
+
+/-! ### still false of the code: a footnote area with a negative top margin -/
+
+/-- 6 lines of 10px on a 46px page; line 1 calls a 50px footnote that cannot fit and is postponed; the `@footnote`
+area has `margin-top: -4px`. `report_footnote` empties the area: `_update_footnote_area` sets its height to 0 and
+subtracts `margin_height() = -4` from `context.page_bottom`, which becomes 50 — 4px *below* the page box — although
+no footnote area is rendered on the page. Line 4 (40 … 50) is then accepted on page 1. -/
+def wNeg : FDoc :=
+  { exDocOf 46 [.para 1 6 10 exSt [⟨1, 1, 5, 10, .auto⟩]] with area := { exArea with mt := -4 } }
+
+/-- **W (C03)**: a line that is not the first of its page ends below the page box (50 > 46); page 1 has no
+footnote area. The hypothesis `AreaHyp` of `C03FootGeo.paginate_line_fits` (decorations sum ≥ 0) is necessary. -/
+theorem area_negative_margin_overflows :
+    (paginateFoot wNeg 20).map (fun ps => ps.map (fun p =>
+      ((placedLines p.page.root true (C03FootGeo.pageSourceF wNeg p).erase).map (fun l => l.y + l.lineH),
+       p.area.map (fun a => a.y), shownFids p))) =
+    some [([10, 20, 30, 40, 50], none, []), ([10], some 0, [1])] ∧ wNeg.pageH = 46 := by
+  constructor
+  · decide +kernel
+  · rfl
+
+/-- Everything but `AreaHyp` holds of `wNeg`. -/
+example : DecoOk wNeg.root.erase ∧ HeightsOk wNeg.root ∧ ¬ AreaHyp wNeg.area := by
+  refine ⟨?_, ?_, ?_⟩
+  · simp [wNeg, exDocOf, FootBox.erase, eraseList, DecoOk, DecoOkList, PStyle.DecoOk, exSt]
+    decide +kernel
+  · simp only [wNeg, exDocOf, HeightsOk, HeightsOkList, List.mem_cons, List.not_mem_nil, or_false,
+      forall_eq_or_imp, forall_eq, and_true]
+    decide +kernel
+  · intro h
+    have := h.deco
+    revert this
+    decide +kernel
 
 end Wp.C01Foot
